@@ -117,6 +117,11 @@ impl Ctx {
     pub fn out_of_time(&self) -> bool {
         self.start.elapsed() > self.soft_limit
     }
+    /// true once this fraction of the soft time budget is used (time slices of multi-part monitors,
+    /// so that a loaded machine shortens every part instead of starving the last ones)
+    pub fn past(&self, frac: f64) -> bool {
+        self.start.elapsed().as_secs_f64() > self.soft_limit.as_secs_f64() * frac
+    }
     pub fn tier_name(&self) -> &'static str {
         if self.quick() {
             "quick"
